@@ -91,6 +91,7 @@ class Sched(object):
         self.switch_sig = 0         # rolling hash of (from, to, tag) triples
         self.deadlock = None
         self.abort = None           # sticky reason -> SimAbort at every line event
+        self.abort_info = None
         self.observers = []         # callables(sched, actor, tag) run at every yield point
         self.all_done = _real_Event()
         self.seq = 0                # global event sequence number (stamps)
@@ -263,6 +264,7 @@ class Sched(object):
             a.call_lines += 1
             if a.call_lines > self.call_budget:
                 self.abort = "call budget"
+                self.abort_info = a.data.get("call")
                 raise SimAbort(self.abort)
         if self.gran == "line":
             base = _BASENAME.get(code)
